@@ -86,7 +86,7 @@ Sp(b)       == IF b THEN <<WS>> ELSE <<>>
 Sep(tok, b) == Sp(b) \o <<tok>> \o Sp(b)
 
 (* every word used below that is a complete identifier  [a-zA-Z_]\w*  (harness: table == regex on all words) *)
-Ident == {"main", "a", "b", "b_2", "c", "e", "g", "p", "t", "x", "he", "llo", "pa", "pw", "t2", "vf", "crf", "hello", "true",
+Ident == {"main", "a", "an", "b", "b_2", "c", "e", "g", "p", "t", "x", "he", "llo", "pa", "pw", "t2", "vf", "crf", "hello", "true",
           "null", "text", "scale", "sync", "bgr", "loop", "maxfps", "maxsize", "resize", "region", "expiration", "fps",
           "segtime", "params", "recursive", "pattern", "format", "quality", "compression", "append", "qos", "retain",
           "png", "jpg", "cam2", "other", "archive", "frames", "topic", "topic2", "topic2_frames", "image", "data", "sub",
@@ -341,7 +341,8 @@ AddrsVideoOut == {<<"file://out_%Y%m%d_%H%M%S.mp4">>, <<"rtsp://user:pa", "!", "
 AtomsVideoOut == {T("bgr"), F("bgr"), T("fps"), V("fps", <<"25">>), V("segtime", <<"180">>), V("segtime", <<"0.5">>),
                   V("segtime", <<"5:00">>), V("params", <<"{\"crf\": 23}">>),
                   V("params", <<"{\"crf\": 23", ",", " ", "\"g\": 30}">>),          \* only writable in list form
-                  V("g", <<"30">>), V("vf", <<"scale", "=", "1280:720">>)}       \* "etc...": other names go to params
+                  V("g", <<"30">>), V("vf", <<"scale", "=", "1280:720">>),       \* "etc...": other names go to params
+                  V("crf", <<"0">>), F("an")}                                    \* ... whatever their values: 0, false
 OkVideoOut(os) == ~(\E i \in 1..Len(os) : os[i].k = <<"params">>) \/ Names(os) \subseteq VideoOutKnown
 AddrsImageIn == {<<"file:///path/to/images">>, <<"s3://bucket/images">>, <<"file:///pa", "!", "th/to">>}
 AtomsImageIn == {T("loop"), F("loop"), V("loop", <<"3">>), T("recursive"), F("recursive"), V("pattern", <<"*.jpg">>),
@@ -483,8 +484,11 @@ ValidRest(c) == LET n == NormRest(c)                                            
 ParseWebvis(text) == LET a == ParseHostPortPath(Tail(text)) IN [h |-> Hd(a.host, a.port, a.path, FALSE, <<>>), items |-> <<>>]
 
 (* ---- MQTTOut  (mqtt_out.py:202-321) ---- *)
+\* white space is ignored around every '/' of a source path as well (mqtt_out.py: each path segment is stripped): the slashes
+\* inside the path are rendered with the white space of the '>' separator
+RenderMqPath(p, w) == FlattenSeq([i \in 1..Len(p) |-> IF p[i] = "/" THEN Sep("/", w.gt) ELSE <<p[i]>>])
 RenderMq(m, w) ==
-  m.src \o (IF m.path = <<>> THEN <<>> ELSE <<"/">> \o m.path) \o (IF m.dst = <<>> THEN <<>> ELSE Sep(">", w.gt) \o m.dst)
+  m.src \o (IF m.path = <<>> THEN <<>> ELSE <<"/">> \o RenderMqPath(m.path, w)) \o (IF m.dst = <<>> THEN <<>> ELSE Sep(">", w.gt) \o m.dst)
   \o FlattenSeq([i \in 1..Len(m.opts) |-> Sep("!", w.bang) \o RenderOpt(m.opts[i], w)])
 RenderMqtt(c, w) == Sp(w.edge) \o RenderHead("mqtt://", c.h, w)
                     \o FlattenSeq([i \in 1..Len(c.items) |-> Sep(";", w.semi) \o RenderMq(c.items[i], w)]) \o Sp(w.edge)
